@@ -1,1 +1,131 @@
+/-
+Helpers for C06: what the two INIT_STRING texts (`Gen.initLA`, `Gen.initDL`) lex and parse to.
+
+The AST types (`Expr`, `Stmt`, …) carry no `DecidableEq` (nested inductives; the deriving handler does
+not apply), so `decide +kernel` cannot state `parse txt = some unit`.  The equation is closed by
+`Eq.refl` instead, with the definitional-equality check left to the KERNEL (`kernel_rfl` below: the
+elaborator's own unifier does not get through the lexer/parser evaluation); the kernel evaluates the
+lexer and the parser models on the ~250 characters in a few seconds.  A wrong literal is rejected by
+the kernel when the auxiliary lemma is added to the environment.
+-/
 import OratioModel
+import Gen.Init
+import Lean
+import Mathlib.Tactic.Linarith
+import Mathlib.Algebra.Order.Field.Rat
+
+namespace Oratio
+namespace InitRule
+open Riddle
+
+open Lean Elab Tactic Meta in
+/-- close `a = b` by `Eq.refl a`; the definitional-equality check is done by the kernel only
+    (the proof term is added as an auxiliary lemma, which the kernel type-checks) -/
+elab "kernel_rfl" : tactic => do
+  let g ← getMainGoal
+  let t ← instantiateMVars (← g.getType)
+  if t.hasMVar || t.hasFVar then throwError "kernel_rfl: the goal must be closed"
+  let some (_, lhs, _) := t.eq? | throwError "kernel_rfl: not an equation"
+  let pf ← mkEqRefl lhs
+  let lem ← mkAuxLemma [] t pf
+  g.assign (mkConst lem)
+
+/-- identifier expression -/
+def v (s : String) : Expr := .id [strInts s]
+/-- comparison statement -/
+def cmp (op : BOp) (l r : Expr) : Stmt := .expr (.bin op l r)
+
+/-- `predicate Impulse(<tp> at) { at >= origin; at <= horizon; }` -/
+def impulse (tp : String) : PredDecl :=
+  { name := strInts "Impulse", pars := [⟨[strInts tp], strInts "at"⟩], supers := [],
+    body := [cmp .geq (v "at") (v "origin"), cmp .leq (v "at") (v "horizon")] }
+
+/-- `predicate Interval(real start, real end, real duration)
+      { start >= origin; end <= horizon; duration == end - start; duration >= 0.0; }` -/
+def intervalLA : PredDecl :=
+  { name := strInts "Interval",
+    pars := [⟨[strInts "real"], strInts "start"⟩, ⟨[strInts "real"], strInts "end"⟩,
+             ⟨[strInts "real"], strInts "duration"⟩],
+    supers := [],
+    body := [cmp .geq (v "start") (v "origin"), cmp .leq (v "end") (v "horizon"),
+             cmp .eq (v "duration") (.nary .sub [v "end", v "start"]),
+             cmp .geq (v "duration") (.real ⟨0, 1⟩)] }
+
+/-- `predicate Interval(tp start, tp end) { start >= origin; start <= end; end <= horizon; }` -/
+def intervalDL : PredDecl :=
+  { name := strInts "Interval",
+    pars := [⟨[strInts "tp"], strInts "start"⟩, ⟨[strInts "tp"], strInts "end"⟩],
+    supers := [],
+    body := [cmp .geq (v "start") (v "origin"), cmp .leq (v "start") (v "end"),
+             cmp .leq (v "end") (v "horizon")] }
+
+/-- `<tp> origin; <tp> horizon; origin >= 0.0; origin <= horizon;` -/
+def topStmts (tp : String) : List Stmt :=
+  [.localField [strInts tp] [(strInts "origin", none)], .localField [strInts tp] [(strInts "horizon", none)],
+   cmp .geq (v "origin") (.real ⟨0, 1⟩), cmp .leq (v "origin") (v "horizon")]
+
+def laUnit : CompUnit :=
+  { methods := [], preds := [impulse "real", intervalLA], types := [], stmts := topStmts "real" }
+def dlUnit : CompUnit :=
+  { methods := [], preds := [impulse "tp", intervalDL], types := [], stmts := topStmts "tp" }
+
+/-- lex, then parse (the expression used in the statements of C06) -/
+def parse (txt : String) : Option CompUnit :=
+  (lex (strInts txt)).toOption.bind (fun ts => (parseUnit ts).toOption)
+
+theorem parse_LA : parse Gen.initLA = some laUnit := by kernel_rfl
+theorem parse_DL : parse Gen.initDL = some dlUnit := by kernel_rfl
+
+theorem unit_LA {u : CompUnit}
+    (hu : (lex (strInts Gen.initLA)).toOption.bind (fun ts => (parseUnit ts).toOption) = some u) :
+    u = laUnit := by
+  have h := parse_LA
+  unfold parse at h
+  rw [h] at hu
+  exact (Option.some.inj hu).symm
+
+theorem unit_DL {u : CompUnit}
+    (hu : (lex (strInts Gen.initDL)).toOption.bind (fun ts => (parseUnit ts).toOption) = some u) :
+    u = dlUnit := by
+  have h := parse_DL
+  unfold parse at h
+  rw [h] at hu
+  exact (Option.some.inj hu).symm
+
+theorem impulse_ne_interval : strInts "Impulse" ≠ strInts "Interval" := by decide +kernel
+
+/-- the predicate called `Interval` of the LA text -/
+theorem pred_interval_LA {p : PredDecl} (hp : p ∈ laUnit.preds) (hn : p.name = strInts "Interval") :
+    p = intervalLA := by
+  simp only [laUnit, List.mem_cons, List.not_mem_nil, or_false] at hp
+  rcases hp with rfl | rfl
+  · exact absurd hn impulse_ne_interval
+  · rfl
+
+theorem pred_interval_DL {p : PredDecl} (hp : p ∈ dlUnit.preds) (hn : p.name = strInts "Interval") :
+    p = intervalDL := by
+  simp only [dlUnit, List.mem_cons, List.not_mem_nil, or_false] at hp
+  rcases hp with rfl | rfl
+  · exact absurd hn impulse_ne_interval
+  · rfl
+
+theorem pred_impulse_LA {p : PredDecl} (hp : p ∈ laUnit.preds) (hn : p.name = strInts "Impulse") :
+    p = impulse "real" := by
+  simp only [laUnit, List.mem_cons, List.not_mem_nil, or_false] at hp
+  rcases hp with rfl | rfl
+  · rfl
+  · exact absurd hn.symm impulse_ne_interval
+
+theorem pred_impulse_DL {p : PredDecl} (hp : p ∈ dlUnit.preds) (hn : p.name = strInts "Impulse") :
+    p = impulse "tp" := by
+  simp only [dlUnit, List.mem_cons, List.not_mem_nil, or_false] at hp
+  rcases hp with rfl | rfl
+  · rfl
+  · exact absurd hn.symm impulse_ne_interval
+
+/-- the literal `0.0` -/
+theorem zero_toRat : (R.mk 0 1).toRat = 0 := by
+  simp [R.toRat]
+
+end InitRule
+end Oratio
